@@ -649,6 +649,10 @@ impl Agg {
     }
 }
 
+/// see the watchdog in `run_batch`
+pub const HANG_CPU_S: f64 = 120.0;
+pub const HANG_WALL_S: f64 = 1800.0;
+
 pub fn run_batch(check: &dyn Check, o: &BatchOpts) -> i32 {
     crate::core::init_process();
     let t0 = Instant::now();
@@ -679,6 +683,7 @@ pub fn run_batch(check: &dyn Check, o: &BatchOpts) -> i32 {
                 }
                 let (case, cfg) = plan_run(check, o.seed, idx, &o.tier);
                 let st = Instant::now();
+                crate::core::set_current_run(idx);
                 inflight.lock().unwrap().insert(t, (idx, st));
                 let r = do_run(check, idx, case, cfg, None);
                 inflight.lock().unwrap().remove(&t);
@@ -694,16 +699,20 @@ pub fn run_batch(check: &dyn Check, o: &BatchOpts) -> i32 {
                 }
             });
         }
-        // watchdog
-        let (inflight, durations, done_flag, hang, stop) = (&inflight, &durations, &done_flag, &hang, &stop);
+        // watchdog: a hang is a simulated execution that has burnt more than HANG_CPU_S seconds of
+        // CPU (it spins in code without scheduling points) or has not finished after HANG_WALL_S
+        // seconds of wall time (it is blocked at OS level).  CPU time, not wall time, so that an
+        // oversubscribed machine cannot turn a slow run into a verdict.
+        let _ = &durations;
+        let (done_flag, hang, stop) = (&done_flag, &hang, &stop);
         s.spawn(move || {
             while !done_flag.load(Ordering::Relaxed) {
-                std::thread::sleep(std::time::Duration::from_millis(200));
-                let mean = { let d = durations.lock().unwrap(); if d.1 == 0 { 0.05 } else { d.0 / d.1 as f64 } };
-                let bound = (100.0 * mean).max(60.0);
-                for (_, (idx, st)) in inflight.lock().unwrap().iter() {
-                    if st.elapsed().as_secs_f64() > bound {
-                        *hang.lock().unwrap() = Some(*idx);
+                std::thread::sleep(std::time::Duration::from_millis(500));
+                let running: Vec<(i64, (u64, Instant))> = crate::core::RUNNING.lock().unwrap().iter().map(|(k, v)| (*k, *v)).collect();
+                for (tid, (idx, st)) in running {
+                    let cpu = crate::core::thread_cpu_seconds(tid).unwrap_or(0.0);
+                    if cpu > HANG_CPU_S || st.elapsed().as_secs_f64() > HANG_WALL_S {
+                        *hang.lock().unwrap() = Some(idx);
                         stop.store(true, Ordering::Relaxed);
                     }
                 }
@@ -737,7 +746,7 @@ pub fn run_batch(check: &dyn Check, o: &BatchOpts) -> i32 {
 
 fn report_hang(check: &dyn Check, o: &BatchOpts, idx: u64) -> ! {
     let (case, cfg) = plan_run(check, o.seed, idx, &o.tier);
-    let v = Violation::new("hang", "run exceeded 100x the median wall time of its batch (min 60 s) without finishing");
+    let v = Violation::new("hang", format!("a simulated execution burnt more than {HANG_CPU_S} s of CPU (or {HANG_WALL_S} s of wall time) without finishing"));
     let key = check.finding_key(&case, &v);
     let kf = KnownFindings::load();
     let file = json!({
